@@ -110,6 +110,10 @@ class LoopSpec:
         self.dec = top.decreases.get(key)
         self.locals_t = top.loop_locals.get(key, {})
         self.key = key
+        # optional per-loop frame: `loop_modifies={ordinal: [...]}` (a subset of `modifies`) is what this
+        # loop may change; only that is havocked at the loop head, and the rest of the heap is checked
+        # unchanged over one iteration (obligations `loop-frame`)
+        self.mods = ((getattr(top, 'extra', None) or {}).get('loop_modifies') or {}).get(key)
 
     def name(self, kind):
         return self.cfg.obl_name(None, kind, f'loop{self.label}' if not isinstance(self.key, tuple) else f'{self.key[0]}.loop{self.label}')
@@ -126,7 +130,7 @@ class LoopSpec:
         return self.cfg.clauses(path, self.inv, self.env(path))
 
     def check_inv(self, path, tag):
-        for i, cl in enumerate(self.clauses(path)):
+        for i, cl in enumerate(self.cfg.clauses(path, self.inv, self.env(path), oblige=True)):
             path.oblige(self.name(f'{tag}#{i}'), tag, cl)
 
     def assume_inv(self, path):
@@ -169,9 +173,34 @@ class LoopSpec:
             elif n in vars:
                 vars[n] = self.cfg.havoc_like(path, vars[n], n)
             # names not yet bound stay unbound (first assignment happens in the body)
-        self.cfg.havoc_modifies(path, self.top, path.entry_env, 'loop')
+        if self.mods is not None:
+            self.cfg.havoc_modifies(path, _ModSet(self.mods), path.entry_env, 'loop')
+            path.snapshot(self.snap_name())
+        else:
+            self.cfg.havoc_modifies(path, self.top, path.entry_env, 'loop')
         henv = {k: v for k, v in self.env(path).items() if k != 'old'}
         path.headstate = {'env': henv, 'ghost': path.ghost, 'heap': {oid: o.clone() for oid, o in path.heap.items()}, 'lazy': path.lazy, 'loop': self.label}
+
+
+class _ModSet:
+    def __init__(self, modifies):
+        self.modifies = list(modifies)
+
+
+def _loop_snap_name(self):
+    return f'loophead#{self.key}'
+
+
+def _loop_check_frame(self, path):
+    """end of one iteration of a loop with a declared per-loop frame: everything outside
+    loop_modifies has the value it had at the loop head"""
+    if self.mods is None:
+        return
+    self.cfg.check_frame(path, 'loop', snap=self.snap_name(), modifies=self.mods, label=f'loop{self.label}')
+
+
+LoopSpec.snap_name = _loop_snap_name
+LoopSpec.check_loop_frame = _loop_check_frame
 
 
 class Config:
@@ -245,7 +274,7 @@ class Config:
             for fr in reversed(path.scope):
                 env.update(path.obj(fr).vars)
             env['old'] = OldView(path.entry_env, 'old')
-            for i, cl in enumerate(self.clauses(path, inv, env)):
+            for i, cl in enumerate(self.clauses(path, inv, env, oblige=True)):
                 path.oblige(self.obl_name(path, 'await-guarantee', f'L{node.lineno}#{i}'), 'await-guarantee', cl)
             self.havoc_modifies(path, self.top, path.entry_env, 'await')
             path.abstraction_used = True
@@ -543,23 +572,48 @@ class Config:
                 raise Unsupported(f'clause {f.qualname} needs {n!r} which is not available here')
         return args
 
-    def clauses(self, path, fn, env):
+    def clauses(self, path, fn, env, oblige=False):
         """truth values of the clauses of fn, evaluated *progressively*: inside a list display
         clause k is evaluated knowing clauses < k (they are conjuncts: for an assumption this is
         the same formula, for obligations it is sequential conjunction).  The temporary
-        hypotheses are removed again before returning."""
+        hypotheses are removed again before returning.
+
+        oblige=True (the caller states every returned clause as an obligation, in order): if the
+        clauses evaluated so far are jointly inconsistent with the path condition (a case split
+        while evaluating clause k finds no feasible side), one of them is false in every state of
+        this path.  They are returned (so that they are stated and refuted) and the path ends after
+        the last of them has been stated -- it must not vanish as "infeasible" together with the
+        obligations that were never stated."""
         if fn is None:
             return []
         saved = path.prog_temps
+        saved_vals = path.prog_vals
         path.prog_temps = []
+        path.prog_vals = []
+        dead = False
         try:
             out = self.as_clause_list(path, self.spec_eval(path, fn, env))
+        except Infeasible:
+            if not oblige or not path.prog_temps:
+                raise
+            out = [path.truth(v) for v in path.prog_vals]
+            dead = True
         finally:
             temps = path.prog_temps
             path.prog_temps = saved
+            path.prog_vals = saved_vals
             if temps:
-                ids = {id(t) for t in temps}
-                path.pc = [p for p in path.pc if id(p) not in ids]
+                # remove exactly the entries that were appended (one occurrence per temp, from the end): a
+                # clause may evaluate to the very term object a branch condition already put on the pc
+                pc = list(path.pc)
+                for t in reversed(temps):
+                    for idx in range(len(pc) - 1, -1, -1):
+                        if pc[idx] is t:
+                            del pc[idx]
+                            break
+                path.pc = pc
+        if dead:
+            path.die_after = len(out)
         return out
 
     def as_clause_list(self, path, v):
@@ -595,6 +649,16 @@ class Config:
         c2 = self.contract_for(path, key, f)
         if c2 is not None:
             return self.apply_contract(path, c2, f, args, kwargs)
+        # contract kwarg `stubs={callable: Callback}` also replaces a repo function outside the kernel
+        # (e.g. the crypto toolbox) by a recorded callback, like it does for library functions
+        stubs = getattr(self.top, 'extra', {}).get('stubs')
+        if stubs and f.native is not None and f.closure is None:
+            try:
+                cb = stubs.get(f.native)
+            except TypeError:
+                cb = None
+            if cb is not None:
+                return path.call(self.fresh(path, cb, cb.name), args, kwargs, node)
         if self.may_inline(key, f):
             path.inlined.add(key)
             return path.run_func(f, args, kwargs)
@@ -646,7 +710,7 @@ class Config:
         path.loop_counters['call'] = n
         self.ensure_ghost(path, c2)
         if c2.requires is not None:
-            for i, cl in enumerate(self.clauses(path, c2.requires, env)):
+            for i, cl in enumerate(self.clauses(path, c2.requires, env, oblige=True)):
                 path.oblige(self.obl_name(path, 'callee-pre', f'{c2.key.split(":")[1]}#{i}'), 'callee-pre', cl)
         snap = f'call{n}'
         path.snapshot(snap)
@@ -701,19 +765,21 @@ class Config:
         return ls
 
     # -- frame ------------------------------------------------------------------------
-    def check_frame(self, path, tag):
-        top = self.top
+    def check_frame(self, path, tag, snap='old', modifies=None, label=None):
+        top = self.top if modifies is None else _ModSet(modifies)
         if ('*' in getattr(top, 'modifies', ['*'])) or self.skeleton:
             return
+        if label is not None:
+            self = _FrameNamer(self, label)
         saved_heap = path.heap
         targets = None
         # resolve modifies in the pre-state
-        path.heap = path.snapshots['old']
+        path.heap = path.snapshots[snap]
         try:
             targets = self.loc_targets(path, top, path.entry_env)
         finally:
             path.heap = saved_heap
-        old = path.snapshots['old']
+        old = path.snapshots[snap]
         for oid, o0 in old.items():
             o1 = path.heap.get(oid)
             if isinstance(o0, Frame):
@@ -733,7 +799,7 @@ class Config:
                     self.frame_obl(path, tag, f'bytearray#{oid}', o0.val, o1.val)
             elif isinstance(o0, LObj):
                 if o0.sym is not o1.sym or o0.items != o1.items:
-                    v0 = M.list_as_sym(path, Ref(oid, 'old'))
+                    v0 = M.list_as_sym(path, Ref(oid, snap))
                     v1 = M.list_as_sym(path, Ref(oid), v0.k[1] if v0 is not None else None) if v0 is not None else None
                     if v0 is None or v1 is None:
                         if (o0.items or []) != (o1.items or []):
@@ -764,6 +830,23 @@ class Config:
 
 
 _GONE = object()
+
+
+class _FrameNamer:
+    """view of a Config whose frame obligations are named after a loop (per-loop frames)"""
+
+    def __init__(self, cfg, label):
+        self._cfg = cfg
+        self._label = label
+
+    def __getattr__(self, n):
+        return getattr(self._cfg, n)
+
+    def obl_name(self, path, kind, label=''):
+        return self._cfg.obl_name(path, f'{self._label}-{kind}' if kind == 'frame' else kind, label)
+
+    def frame_obl(self, path, tag, label, v0, v1):
+        return Config.frame_obl(self, path, tag, label, v0, v1)
 
 
 # ---------------------------------------------------------------------------
@@ -858,7 +941,11 @@ def verify(registry, top, tier='quick', max_paths=4000, collect_pre=True):
             outcome = 'unsupported'
         except PyExc as e:
             # exception escaping from clause evaluation / pre-state construction
-            res.undecided.append(f'{path.cur_loc}: python exception {e.value!r} outside the function under contract')
+            try:
+                _desc = f'{path.exc_class_of(e.value).__name__}{getattr(path.obj(e.value), "fields", {}).get("args", "")!r}'
+            except Exception:
+                _desc = repr(e.value)
+            res.undecided.append(f'{path.cur_loc}: python exception {_desc} outside the function under contract')
             outcome = 'unsupported'
         except RecursionError:
             res.undecided.append('python recursion limit in the engine')
@@ -914,6 +1001,8 @@ def run_path(cfg, path, top, func, is_lemma):
     pnames = [p.arg for p in a.posonlyargs + a.args] + [p.arg for p in a.kwonlyargs]
     missing = [p for p in pnames if p not in env]
     kwargs = {p: env[p] for p in pnames if p in env}
+    if is_lemma and 'ghost' in pnames and 'ghost' not in env:
+        kwargs['ghost'] = path.ghost  # a ghost driver may read (and write) the ghost state, as it can natively
     try:
         result = path.run_func(func, [], kwargs)
     except PyExc as e:
@@ -930,16 +1019,17 @@ def run_path(cfg, path, top, func, is_lemma):
             path.oblige(cfg.obl_name(path, 'exc', cls.__name__), 'exc', False, info={'exception': cls.__name__, 'at': path.cur_loc})
         else:
             if matched[1] is not None:
-                for i, cl in enumerate(cfg.clauses(path, matched[1], post_env)):
+                for i, cl in enumerate(cfg.clauses(path, matched[1], post_env, oblige=True)):
                     path.oblige(cfg.obl_name(path, f'raises-{matched[0].__name__}', i), 'post', cl)
         cfg.check_frame(path, 'exc')
+        _xcheck(cfg, path)
         return ('exc', cls.__name__)
     post_env = dict(env)
     post_env['old'] = OldView(old_env, 'old')
     post_env['res'] = result
     if top.ensures is not None:
         names = top.ensures_names if getattr(top, 'ensures_names', None) else None
-        for i, cl in enumerate(cfg.clauses(path, top.ensures, post_env)):
+        for i, cl in enumerate(cfg.clauses(path, top.ensures, post_env, oblige=True)):
             path.oblige(cfg.obl_name(path, 'post', names[i] if names and i < len(names) else i), 'post', cl)
     extra = getattr(top, 'extra', {}) or {}
     if extra.get('result') is not None:
@@ -959,4 +1049,18 @@ def run_path(cfg, path, top, func, is_lemma):
         finally:
             path.spec_mode -= 1
     cfg.check_frame(path, 'post')
+    _xcheck(cfg, path)
     return 'normal'
+
+
+def _xcheck(cfg, path):
+    """CPython cross-check sample: a satisfiability query for the whole path condition of a completed path; its
+    model (a concrete pre-state satisfying `requires`) is run through the real function under CPython and the
+    contract clauses are evaluated natively (run.process_top).  Capped per entry by PYVC_XCHECK (default 6)."""
+    cap = int(os.environ.get('PYVC_XCHECK', '6') or 0)
+    ex = path.explorer
+    n = getattr(ex, 'xcheck_n', 0)
+    if n >= cap:
+        return
+    ex.xcheck_n = n + 1
+    path.oblige(cfg.obl_name(path, 'xcheck', f'path{n}'), 'xcheck', True, expect_sat=True)
